@@ -24,8 +24,17 @@ PROP["lean_modules"].append("ConduitModel.Props.C02")
 
 PROP["lean_modules"].append("ConduitModel.Props.MonSound")
 
+# arch-v2 shared sink (N source workers on one shared TaskNode subtree): Model/SharedSink.lean, Props/SharedSink.lean
+# (C04_v2_shared_*), Facts/SharedSink.lean, trace replay of the funnelshared runs (driver component sharedsink)
+from funnel_common import funnel_sharedsink_job, SHAREDSINK_MODULES, SHAREDSINK_STRENGTH, SHAREDSINK_ASSUME
+PROP["lean_modules"] += SHAREDSINK_MODULES
+PROP["jobs"].append(funnel_sharedsink_job("C04"))
+PROP["strength"] += SHAREDSINK_STRENGTH
+PROP["assumptions"] = list(PROP["assumptions"]) + SHAREDSINK_ASSUME
+
 META = {
     "text": "Lean 4 theorems. v2: the WHOLE-PASS theorem C04_v2_pass_acks_prefix (every task tree incl. nested fan-out and split runs, every fuel, plugin script, DLQ config, fan-out order and outcome: the positions acked to the source are a prefix of the batch's positions; equal to the batch when the pass returns ok), built on C04_ma_release_prefix/_next (multiAckNacker releases exactly the in-order prefix for every vote order) and the loop partition law (C04_groups_in_read_order). Connector: C02_delivered_fifo/_prefix (deferred-ack queue delivers in order, gap-free unless an ack was dropped, then nothing later is delivered). v1 (default engine): the product model Flow x Ack of pkg/lifecycle/stream is proved to satisfy the property's monitor for every topology and every event list (C04_v1_ack_sequence_is_prefix, C04_v1_fail_latch); the real node graph is tied by trace acceptance (`pipe`: every recorded trace must be a behaviour of the model; internal events are reconstructed and each is checked by the model's step). Ties: funnel event-log equality + monitors on concurrent / multi-source / slow-source runs, arbiter equality, pipe and srcack trace acceptance.",
     "note": 'Proved about the models (v2 pass: one pass, multi-batch loop by correspondence). Trusted: correspondence sampling, fakes for plugins, Go runtime/channel semantics, semaphore.Simple as FIFO ticket lock (v1).',
     "technique": 'Lean 4 whole-pass Hoare-style proof (v2), event-system invariants (v1, connector) + trace equality / acceptance against the real code',
 }
+META["text"] += ' Shared sink: C04_v2_shared_stream_clean_when_free and _clean_subpass_consumed_all (a sub-pass starts on an empty ack stream and returns nil only after consuming every ack of its own writes), for every event list of Model/SharedSink.lean; real concurrent runs replayed through the model (sharedsink).'
